@@ -14,10 +14,10 @@ Import ListNotations.
 From CXV Require Import Gen.TokTy Parse.Balanced Parse.Declarator.
 Open Scope N_scope.
 
-Inductive expr := ETokenIf (tys : list N) | EToken.
-Inductive cond := CVar (v : N) | CNotVar (v : N) | CInClass | CNotInClass | CTypeIs (v : N) (ty : N) | CTokenIf (tys : list N).
+Inductive expr := ETokenIf (tys : list N) | EToken | EMustBe (tys : list N).
+Inductive cond := CVar (v : N) | CNotVar (v : N) | CInClass | CNotInClass | CTypeIs (v : N) (ty : N) | CTypeIn (v : N) (tys : list N) | CTokenIf (tys : list N).
 Inductive arg := AVar (v : N) | ADox | ATemplate | ABool (b : bool).
-Inductive callee := F_declarations | F_template_instantiation | F_namespace.
+Inductive callee := F_declarations | F_template_instantiation | F_namespace | F_gcc_attribute | F_declspec | F_attribute_specifier_seq.
 
 Inductive stmt :=
 | SAssign (v : N) (e : expr)
@@ -30,6 +30,8 @@ Inductive stmt :=
 | SReturn
 | SMustBe (tys : list N)                           (* self._next_token_must_be(...) *)
 | SDiscard (s e : N)                               (* self._discard_contents(s, e) *)
+| SConsumeBalanced (vs : list N)                   (* self._consume_balanced_tokens(v1, v2, ...), the group is dropped *)
+| SRaiseInternal                                   (* raise CxxParseError("internal error") *)
 | SUnknown.                                        (* a function the translator could not translate: running it answers code 9 *)
 
 Inductive rarg := RTok (t : option tk) | RDox | RTemplate | RBool (b : bool).
@@ -53,6 +55,7 @@ Definition eval_cond (c : cond) (in_class : bool) (e : env) (toks : list tk) : b
   | CInClass => (in_class, toks)
   | CNotInClass => (negb in_class, toks)
   | CTypeIs v ty => (match lookup v e with Some t => kty t =? ty | None => false end, toks)
+  | CTypeIn v tys => (match lookup v e with Some t => memN (kty t) tys | None => false end, toks)
   | CTokenIf tys => match toks with t :: r => if memN (kty t) tys then (true, r) else (false, toks) | [] => (false, toks) end
   end.
 
@@ -73,6 +76,11 @@ Fixpoint exec (ic : bool) (s : stmt) (e : env) (toks : list tk) {struct s} : ste
       end
   | SAssign v EToken =>
       match toks with t :: r => Continue ((v, Some t) :: e) r | [] => Stop (OErr 2) end
+  | SAssign v (EMustBe tys) =>
+      match toks with
+      | t :: r => if memN (kty t) tys then Continue ((v, Some t) :: e) r else Stop (OErr 1)
+      | [] => Stop (OErr 2)
+      end
   | SIf c th el => let '(b, toks') := eval_cond c ic e toks in if b then block th e toks' else block el e toks'
   | SRaise _ => Stop (OErr 1)
   | SReturnTok v => match lookup v e with Some t => Continue e (t :: toks) | None => Stop (OErr 3) end
@@ -91,6 +99,16 @@ Fixpoint exec (ic : bool) (s : stmt) (e : env) (toks : list tk) {struct s} : ste
       | ErrEOF => Stop (OErr 2)
       | _ => Stop (OErr 3)
       end
+  | SConsumeBalanced vs =>
+      let inits := flat_map (fun v => match lookup v e with Some t => [t] | None => [] end) vs in
+      if negb (Nat.eqb (length inits) (length vs)) then Stop (OErr 3)
+      else match consume_balanced kty inits toks with
+           | Ok (_, r) => Continue e r
+           | ErrEOF => Stop (OErr 2)
+           | ErrUnexpected _ => Stop (OErr 1)
+           | ErrInternal => Stop (OErr 3)
+           end
+  | SRaiseInternal => Stop (OErr 3)
   | SUnknown => Stop (OErr 9)
   end.
 
